@@ -12,14 +12,13 @@ SCR=$(mktemp -d /tmp/verif-scratch.XXXXXX)
 trap 'rm -rf "$SCR"' EXIT
 rsync -a --exclude .git --exclude /jqawk /repo/ "$SCR/"
 if [ "$1" = "--reverse" ]; then
-  # several commits of one repair are given as a+b (oldest first) and undone newest first
+  # several commits of one repair are given as a+b (oldest first) and undone newest first; the undoing is a
+  # three-way merge (git revert) in a scratch clone, so that lines a later commit moved or re-spelled are still found
+  rm -rf "$SCR"; git clone -q /repo "$SCR" || { echo "SKIP cannot clone /repo"; exit 3; }
   for h in $(echo "$2" | tr '+' '\n' | tac); do
-    # lines of an old commit that a later commit (36f0a12: Array became a pointer) rewrote are brought to today's spelling first
-    git -C /repo show "$h" -- src cli > "$SCR/.rev.diff"
-    (cd "$SCR" && patch -R -p1 -s --dry-run < .rev.diff >/dev/null 2>&1) || sed -i -E 's/len\(v\.Array\)/len(*v.Array)/g; s/range v\.Array/range *v.Array/g; s/:= value\.Value\.Array$/:= *value.Value.Array/' "$SCR/.rev.diff"
-    (cd "$SCR" && patch -R -p1 -s < .rev.diff) || { echo "SKIP reverse of $h does not apply"; exit 3; }
-    rm -f "$SCR/.rev.diff" "$SCR"/src/*.orig "$SCR"/src/*.rej
+    (cd "$SCR" && git -c user.name=selftest -c user.email=selftest@localhost revert --no-commit "$h" >/dev/null 2>&1) || { echo "SKIP reverse of $h does not apply (conflicts with later commits)"; exit 3; }
   done
+  rm -rf "$SCR/.git" "$SCR/jqawk"
   NAME="reverse-of-$2"; shift 2
 else
   PATCH="$(cd "$(dirname "$1")" && pwd)/$(basename "$1")"
